@@ -3,7 +3,7 @@
 use crate::proto::*;
 use crate::rng::Rng;
 use pricelevel::{
-    MatchResult, OrderId, OrderQueue, OrderUpdate, PegReferenceType, PriceLevel, PriceLevelError, PriceLevelSnapshot,
+    MatchResult, OrderId, OrderQueue, OrderType, OrderUpdate, PegReferenceType, PriceLevel, PriceLevelError, PriceLevelSnapshot,
     PriceLevelStatistics, Side, TimeInForce, Transaction,
 };
 use std::panic::{catch_unwind, AssertUnwindSafe};
@@ -539,6 +539,12 @@ pub fn gen_codec(seed: u64, n_valid: u64, n_bad: u64, out: &crate::gens::Sink) {
             out.push(format!("txt.rt {ty} {v}"));
         }
     }
+    // values with very many elements (past 10 000 and past 65 536), one size per kind and run
+    for kind in ["level-text", "queue-text", "mr-text"] {
+        out.push(format!("case {case}"));
+        case += 1;
+        out.push(format!("big {kind} {}", r.pick(&[10_001u64, 20_000, 70_000])));
+    }
     for ty in TYPES {
         for _ in 0..n_bad {
             let v = rvalue(&mut r, ty);
@@ -548,5 +554,75 @@ pub fn gen_codec(seed: u64, n_valid: u64, n_bad: u64, out: &crate::gens::Sink) {
             case += 1;
             out.push(format!("txt.parse {ty} {}", hex(&bad)).trim_end().to_string());
         }
+    }
+}
+
+/// `big <kind> <n>`: round trip of a value with `n` elements through the library's own encoder and decoder.
+/// Returns "ok <n>" when decode(encode v) has `n` elements and encodes to the same text again, otherwise what went wrong.
+pub fn big_round_trip(kind: &str, n: u64) -> String {
+    use std::str::FromStr;
+    let order = |i: u64| -> Order {
+        let id = OrderId::from_u64(i + 1);
+        match i % 3 {
+            0 => OrderType::Standard { id, price: 100, quantity: i % 97 + 1, side: Side::Sell, timestamp: i, time_in_force: TimeInForce::Gtc, extra_fields: () },
+            1 => OrderType::IcebergOrder { id, price: 100, visible_quantity: i % 7 + 1, hidden_quantity: i % 11, side: Side::Buy, timestamp: i, time_in_force: TimeInForce::Day, extra_fields: () },
+            _ => OrderType::ReserveOrder { id, price: 100, visible_quantity: i % 5 + 1, hidden_quantity: i % 13, side: Side::Sell, timestamp: i, time_in_force: TimeInForce::Gtc,
+                                           replenish_threshold: 1, replenish_amount: Some(i % 4), auto_replenish: i % 2 == 0, extra_fields: () },
+        }
+    };
+    let tx = |i: u64| Transaction { transaction_id: Uuid::from_u128(i as u128 + 7), taker_order_id: OrderId::from_u64(900), maker_order_id: OrderId::from_u64(i + 1),
+                                    price: 100, quantity: i % 9 + 1, taker_side: Side::Buy, timestamp: i };
+    let level = || { let l = PriceLevel::new(100); for i in 0..n { l.add_order(order(i)); } l };
+    let verdict = |got: Result<(usize, String), String>, first: &str| match got {
+        Err(e) => format!("err {}", e.replace(' ', "_").chars().take(80).collect::<String>()),
+        Ok((len, again)) => if len as u64 != n { format!("lost {len}") } else if again != first { "differs".to_string() } else { format!("ok {n}") },
+    };
+    match kind {
+        "snap-json" => {
+            let l = level();
+            let first = serde_json::to_string(&l.snapshot()).unwrap_or_default();
+            verdict(serde_json::from_str::<pricelevel::PriceLevelSnapshot>(&first).map_err(|e| e.to_string())
+                .and_then(|s| serde_json::to_string(&s).map(|t| (s.orders.len(), t)).map_err(|e| e.to_string())), &first)
+        }
+        "pkg-json" => {
+            let l = level();
+            let first = l.snapshot_to_json().unwrap_or_default();
+            verdict(PriceLevel::from_snapshot_json(&first).map_err(|e| e.to_string())
+                .and_then(|l2| l2.snapshot_to_json().map(|t| (l2.order_count(), t)).map_err(|e| e.to_string())), &first)
+        }
+        "level-json" => {
+            let l = level();
+            let first = serde_json::to_string(&l).unwrap_or_default();
+            verdict(serde_json::from_str::<PriceLevel>(&first).map_err(|e| e.to_string())
+                .and_then(|l2| serde_json::to_string(&l2).map(|t| (l2.order_count(), t)).map_err(|e| e.to_string())), &first)
+        }
+        "queue-json" => {
+            let q = OrderQueue::from_vec((0..n).map(|i| Arc::new(order(i))).collect());
+            let first = q.to_string();
+            let j = serde_json::to_string(&q).unwrap_or_default();
+            verdict(serde_json::from_str::<OrderQueue>(&j).map(|q2| (q2.to_vec().len(), q2.to_string())).map_err(|e| e.to_string()), &first)
+        }
+        "mr-json" => {
+            let mut m = MatchResult::new(OrderId::from_u64(900), 0);
+            for i in 0..n { m.add_transaction(tx(i)); m.filled_order_ids.push(OrderId::from_u64(i + 1)); }
+            let first = serde_json::to_string(&m).unwrap_or_default();
+            verdict(serde_json::from_str::<MatchResult>(&first).map_err(|e| e.to_string())
+                .and_then(|m2| serde_json::to_string(&m2).map(|t| (m2.transactions.as_vec().len(), t)).map_err(|e| e.to_string())), &first)
+        }
+        "level-text" => {
+            let first = level().to_string();
+            verdict(PriceLevel::from_str(&first).map(|l2| (l2.order_count(), l2.to_string())).map_err(|e| e.to_string()), &first)
+        }
+        "queue-text" => {
+            let first = OrderQueue::from_vec((0..n).map(|i| Arc::new(order(i))).collect()).to_string();
+            verdict(OrderQueue::from_str(&first).map(|q2| (q2.to_vec().len(), q2.to_string())).map_err(|e| e.to_string()), &first)
+        }
+        "mr-text" => {
+            let mut m = MatchResult::new(OrderId::from_u64(900), 0);
+            for i in 0..n { m.add_transaction(tx(i)); m.filled_order_ids.push(OrderId::from_u64(i + 1)); }
+            let first = m.to_string();
+            verdict(MatchResult::from_str(&first).map(|m2| (m2.transactions.as_vec().len(), m2.to_string())).map_err(|e| e.to_string()), &first)
+        }
+        _ => "bad-kind".to_string(),
     }
 }
